@@ -651,6 +651,20 @@ func (c *Ctx) evalIndex(e *ast.IndexExpr) Value {
 	panic(engineErr("%s: index of %s not supported", x.pos(e.Pos()), exprText(e.X)))
 }
 
+// opaqueBytes: the bytes of a value of an opaque named array type ([n]byte underneath).
+func (x *Exec) opaqueBytes(v *Term, T types.Type) (Value, bool) {
+	at, ok := types.Unalias(T).Underlying().(*types.Array)
+	if !ok {
+		return Value{}, false
+	}
+	bt, ok := at.Elem().Underlying().(*types.Basic)
+	if !ok || bt.Kind() != types.Uint8 {
+		return Value{}, false
+	}
+	arr := App("opq.bytes", ArraySort(SInt, SInt), v)
+	return Value{Kind: KSlice, T: types.NewSlice(at.Elem()), Arr: arr, Len: IntLit(at.Len()), IsNil: False}, true
+}
+
 func sortOfArrElem(a *Term) Sort { _, e := a.Sort.ArrayParts(); return e }
 
 func elemTypeOrNil(t types.Type) types.Type {
@@ -662,6 +676,12 @@ func elemTypeOrNil(t types.Type) types.Type {
 
 func (c *Ctx) evalSlice(e *ast.SliceExpr) Value {
 	base := c.eval(e.X)
+	if base.Kind == KScalar && c.x.isOpaqueNamed(c.typeOf(e.X)) {
+		// x[:] of an opaque array value: its bytes, an uninterpreted function of the value
+		if ob, ok := c.x.opaqueBytes(base.S, c.typeOf(e.X)); ok {
+			base = ob
+		}
+	}
 	if base.Kind != KSlice {
 		panic(engineErr("%s: slicing of %s not supported", c.x.pos(e.Pos()), exprText(e.X)))
 	}
@@ -733,6 +753,17 @@ func (c *Ctx) evalUnary(e *ast.UnaryExpr) Value {
 					}
 					c.fr.addrTaken[obj] = true
 					return c.allocBox(obj.Type(), c.eval(id), c.typeOf(e))
+				}
+			}
+		}
+		if ie, ok := unparen(e.X).(*ast.IndexExpr); ok {
+			// &s[i] for a slice of structs: the elements are objects already, the address is the element's reference
+			if bt := c.typeOf(ie.X); bt != nil && x.kindOf(bt) == KSlice {
+				if _, _, isStruct := x.isRepoStruct(elemType(bt)); isStruct {
+					base := c.eval(ie.X)
+					idx := c.eval(ie.Index)
+					c.oblige("bounds", exprText(ie), And(Le(IntLit(0), idx.S), Lt(idx.S, base.Len)), e.Pos())
+					return Scalar(Select(base.Arr, idx.S), c.typeOf(e))
 				}
 			}
 		}
@@ -849,6 +880,16 @@ func (c *Ctx) wrapsIf(e ast.Expr) *Term {
 
 func (c *Ctx) wraps(e ast.Expr) bool {
 	txt := exprText(e)
+	for _, fr := range c.x.frames {
+		if fr.fi != nil && fr.fi.Spec != nil && (fr.fi.Spec.Wraps[txt] || fr.fi.Spec.Wraps["*"]) {
+			return true
+		}
+	}
+	return false
+}
+
+// wrapsText: the contract of a function on the stack exempts the operation with this text (or every operation).
+func (c *Ctx) wrapsText(txt string) bool {
 	for _, fr := range c.x.frames {
 		if fr.fi != nil && fr.fi.Spec != nil && (fr.fi.Spec.Wraps[txt] || fr.fi.Spec.Wraps["*"]) {
 			return true
